@@ -701,7 +701,10 @@ class ReadDTCInformation(BaseService):
                             did, len(remaining_data[data_offset:]), codec_len))
 
                     snapshot.raw_data = remaining_data[data_offset:data_offset + codec_len]
-                    snapshot.data = codec.decode(snapshot.raw_data)
+                    try:
+                        snapshot.data = codec.decode(snapshot.raw_data)
+                    except Exception as e:
+                        raise InvalidResponseException(response, 'Data for DID 0x%04x could not be decoded. Exception is : %s' % (did, e))
 
                     dtc.snapshots.append(snapshot)
                     actual_byte += dtc_snapshot_did_size + codec_len
@@ -791,7 +794,10 @@ class ReadDTCInformation(BaseService):
                             did, len(remaining_data[data_offset:]), codec_len))
 
                     snapshot.raw_data = remaining_data[data_offset:data_offset + codec_len]
-                    snapshot.data = codec.decode(snapshot.raw_data)
+                    try:
+                        snapshot.data = codec.decode(snapshot.raw_data)
+                    except Exception as e:
+                        raise InvalidResponseException(response, 'Data for DID 0x%04x could not be decoded. Exception is : %s' % (did, e))
 
                     dtc.snapshots.append(snapshot)
 
